@@ -865,8 +865,32 @@ class E2Meta(ScriptEngine):
 
         for _ in range(ops):
             emit_op(body_setup if r.random() < 0.6 else body_loop)
-        p_text = head + [a for a, _b in p_lines] + [a for a, _b in body_setup]
-        q_text = head + binds + [b for _a, b in p_lines]
+        # a helper whose parameter is renamed so that it shadows a top-level constant of another value:
+        # renaming a parameter consistently never changes what Python does
+        helper_p: List[str] = []
+        helper_q: List[str] = []
+        if r.random() < 0.5:
+            gname = name("msg")
+            gval = r.choice(["hello", "abcdefgh", "x"])
+            arg = r.choice(["hi", "", "a longer argument"])
+            body_kind = r.choice(["len", "len_sleep", "len_cmp"])
+            for param, out in (("q", helper_p), (gname, helper_q)):
+                out.append(f"{gname} = {gval!r}")
+                out.append(f"def show({param}):")
+                if body_kind == "len":
+                    out.append(f"    mon.write(len({param}))")
+                elif body_kind == "len_sleep":
+                    out.append(f"    sleep(len({param}) * 3)")
+                    out.append(f"    mon.write({param})")
+                else:
+                    out.append(f"    if len({param}) > 3:")
+                    out.append("        led.toggle()")
+                    out.append(f"    mon.write(len({param}) + 1)")
+                out.append(f"show({arg!r})")
+                out.append(f"mon.write(len({gname}))")
+            body_loop.append((f"show({(arg + 'z')!r})",) * 2)
+        p_text = head + [a for a, _b in p_lines] + helper_p + [a for a, _b in body_setup]
+        q_text = head + binds + [b for _a, b in p_lines] + helper_q
         # dead mutations: in a never-taken branch and in a zero-trip loop, placed before and after the uses
         def dead_block(lines):
             out = []
